@@ -56,7 +56,7 @@ func allChecks() []*Check {
 			ID: "C16", Title: "A misbehaving handler cannot stop event delivery",
 			Harnesses: []Harness{
 				{Pkg: "client", Func: "VerifSession", Sched: true, Quick: map[string]int{"N": 3, "SW": 1, "KINDS": 0, "TRACK": 1, "PANICS": 1}, Thorough: map[string]int{"N": 3, "SW": 2, "KINDS": 0, "TRACK": 1, "PANICS": 1}, Asserts: []string{"every-panic-reached-Recover", "every-handler-of-every-line-exactly-once", "DISCONNECTED-exactly-once", "DISCONNECTED-not-delayed-by-stuck-background-handler"}},
-				{Pkg: "client", Func: "VerifC16Recover", Asserts: []string{"recover-called-with-conn-and-line", "handle-returns-normally", "default-logs-an-error", "builtin-handler-panic-recovered", "later-handlers-still-run"}},
+				{Pkg: "client", Func: "VerifC16Recover", Asserts: []string{"recover-called-with-conn-and-line", "handle-returns-normally", "default-logs-an-error", "builtin-handler-panic-recovered", "later-handlers-still-run", "every-panic-handed-to-the-configured-recover", "default-logs-every-panic"}},
 				{Pkg: "client", Func: "VerifC16Builtin", Asserts: []string{"builtin-handler-panic-recovered", "later-handlers-still-run"}, Note: "every built-in verb without parameters from 4 kinds of source, then a well-formed line per verb"},
 				{Pkg: "client", Func: "VerifC16Background", Asserts: []string{"foreground-not-delayed-by-stuck-background"}},
 			},
